@@ -115,10 +115,12 @@ func startMemWatchdog() (stop func()) {
 	return func() { close(done) }
 }
 
-// afterConfig gives the memory of a finished configuration back before the next one starts.
-func afterConfig() {
-	runtime.GC()
-	debug.FreeOSMemory()
+// afterConfig lets the collector take the state of a LARGE finished configuration back before the next one starts (small
+// ones are left to the ordinary collection cycle: forcing collections beside running socket executions costs them time).
+func afterConfig(executions int64) {
+	if executions >= 500_000 {
+		runtime.GC()
+	}
 }
 
 // peakRSSKiB reads VmHWM of this process.
